@@ -275,13 +275,22 @@ class Verdict:
             if f['id'] in self.known:
                 print('KNOWN-FINDING: property=%s %s (%s; %d occurrences in this run)' % (self.prop, f['id'], f['what'], self.known[f['id']]))
         seen = set()
+        per_key = {}
+        printed = 0
         for v in self.violations:
             rp = v.get('replay', '')
             key = (v.get('key'), rp)
             if key in seen:
                 continue
             seen.add(key)
+            # at most three replay files per departing field are listed (all are counted in the evidence)
+            per_key[v.get('key')] = per_key.get(v.get('key'), 0) + 1
+            if per_key[v.get('key')] > 3 or printed >= 40:
+                continue
+            printed += 1
             print('VIOLATION property=%s replay=%s   # %s: %s' % (self.prop, rp, v.get('key', ''), str(v.get('detail', ''))[:300]))
+        if len(seen) > printed:
+            print('(%d further violations of %s not listed; see evidence/%s.json and out/replay/)' % (len(seen) - printed, self.prop, self.prop))
         return 1 if self.violations else 0
 
 
